@@ -246,6 +246,7 @@ func runC10(t *testing.T, id string, walk c10Walk) {
 		}
 	}
 
+	lastErr := false
 	settle := func() bool {
 		for i := 0; i < 40; i++ {
 			syncs, ok := w.round()
@@ -255,12 +256,27 @@ func runC10(t *testing.T, id string, walk c10Walk) {
 			for _, sr := range syncs {
 				r.syncs = append(r.syncs, sr)
 				judge(sr)
+				lastErr = sr.Err != nil
 			}
 			if len(syncs) == 0 {
 				if !w.quiesce() {
 					return false
 				}
 				if w.q.Len() == 0 {
+					// quiet: "children are still reconciled to its answer" - a finalization that we are
+					// entitled to carry out cannot be left half-way with nothing queued
+					if cur := s.Peek(pgvr, sc.ns(), sc.parentName()); cur != nil && sim.UID(cur) == parentUID && hookOn && walk.Finalize != "never" && !lastErr && atomic.LoadInt32(&pendingFault) == 0 {
+						gc := hasFin(cur, "foregroundDeletion") || hasFin(cur, "orphan")
+						if hasFin(cur, finName) && !gc && (sim.IsDeleting(cur) || sim.Labels(cur)["managed-by"] != uid) {
+							var left []string
+							for _, o := range s.PeekAll(sim.WidgetInfo.GVR()) {
+								if c := sim.ControllerOf(o); c != nil && c.UID == parentUID {
+									left = append(left, sim.Name(o))
+								}
+							}
+							rep.Violation("C10", id, "finalization-stalled", fmt.Sprintf("the parent still carries the finalizer and must be finalized (deleting=%v, matches=%v), yet nothing is queued any more; children left: %v", sim.IsDeleting(cur), sim.Labels(cur)["managed-by"] == uid, left), map[string]interface{}{"walk": walk})
+						}
+					}
 					return true
 				}
 			}
